@@ -72,6 +72,25 @@ pub fn explore(ex: &Ex) {
                     }
                 }
             }
+            // the correctly tagged item wrapped once more (byte string, encoded-CBOR tag 24, one-element
+            // array, map value): only the tag directly on the structure counts
+            {
+                let tagged = Enc::Tag(own, min_w(own), Box::new(be.clone())).to_bytes();
+                let wrapped: Vec<Vec<u8>> = vec![
+                    Item::Bytes(tagged.clone()).det(),
+                    Item::tag(24, Item::Bytes(tagged.clone())).det(),
+                    Item::tag(own, Item::Bytes(raw.clone())).det(),
+                    Item::tag(own, Item::Bytes(tagged.clone())).det(),
+                    [&[0x81u8][..], &tagged].concat(),
+                    [&[0xa1u8, 0x00][..], &tagged].concat(),
+                    Item::Bytes(raw.clone()).det(),
+                ];
+                for w in wrapped {
+                    l.state(1);
+                    ex.decode(l, "c14", ty, Entry::Tagged, &w);
+                    ex.decode(l, "c14", ty, Entry::Slice, &w);
+                }
+            }
             // the registered tag plus multiples of 2^8, 2^16, 2^32 (truncating head decoders)
             let mut tags: Vec<u64> = TAGS.to_vec();
             tags.extend([own + (1 << 8), own + (1 << 16), own + (1 << 32), own + (1 << 63)]);
